@@ -478,3 +478,34 @@ Proof.
   pose proof (identity_unique_in_set ops ps sid1) as Hu. cbv zeta in Hu. fold st in Hu.
   apply (NoDup_map_eq _ _ Hu); [exact Hi | exact Hj | congruence].
 Qed.
+
+(* ---------- the row window of a write lies inside the data (defect D24 repaired) ---------- *)
+Lemma setup_frame_window hc st l w wf st' rows :
+  setup_frame hc st l w wf = OK (st', rows) ->
+  0 <= w_from w /\
+  exists f, lf_at st l = Some f /\
+    let merged := data_merge (l_data f) (match w_data w with Some d => d | None => [] end) in
+    let st1 := set_lf st l (set_ldata f merged) in
+    forall c0 cs, frame_channels st (wf_item wf) = c0 :: cs ->
+      exists d0, data_find merged (dataset_name_of (item_at st1 c0)) = Some d0
+                 /\ w_from w < cd_rows d0
+                 /\ match w_to w with Some t => w_from w < t /\ t <= cd_rows d0 | None => True end.
+Proof.
+  unfold setup_frame. destruct (lf_at st l) as [f|]; [|discriminate]. intros H. cbn zeta in H.
+  bind_inv H. rename a into infos, H0 into Hgo.
+  set (merged := data_merge (l_data f) (match w_data w with Some d => d | None => [] end)) in *.
+  set (st1 := set_lf st l (set_ldata f merged)) in *.
+  destruct (negb (distinct _)); [discriminate|]. destruct infos as [|d0 infos']; [discriminate|].
+  destruct (w_from w <? 0) eqn:C0; [discriminate|].
+  destruct (cd_rows d0 <=? w_from w) eqn:C1; [discriminate|].
+  destruct (cd_rows d0 <? match w_to w with Some t => t | None => cd_rows d0 end) eqn:C2; [discriminate|].
+  destruct (match w_to w with Some t => t | None => cd_rows d0 end - w_from w <? 1) eqn:C3; [discriminate|].
+  clear H. split; [lia|]. exists f. split; [reflexivity|]. cbn zeta. fold merged. fold st1.
+  intros c0 cs Hfc.
+  assert (Hfc1 : frame_channels st1 (wf_item wf) = c0 :: cs) by exact Hfc.
+  change (frame_channels st (wf_item wf)) with (frame_channels st1 (wf_item wf)) in Hgo. rewrite Hfc1 in Hgo.
+  destruct (data_find merged (dataset_name_of (item_at st1 c0))) as [d|] eqn:Ed; [|discriminate].
+  destruct (negb (valid_dtype _)); [discriminate|]. destruct (1 <? zlen (cd_shape d)); [discriminate|].
+  bind_inv Hgo. apply OK_inj_ in Hgo. injection Hgo as -> _.
+  exists d0. split; [reflexivity|]. split; [lia|]. destruct (w_to w); [lia | exact I].
+Qed.
